@@ -175,7 +175,53 @@ def _extra_cases():
         "empty-option-name": lambda p: p.parse_args(["--=1"]),
         "dotted-unknown": lambda p: p.parse_args(["--a.b.=1"]),
         "plus-suffix-on-non-list": lambda p: p.parse_args(["--s+=1"]),
+        "parse_path-missing": lambda p: p.parse_path("/nonexistent/x.yaml"),
+        "parse_path-directory": lambda p: p.parse_path("/tmp"),
+        "parse_path-not-utf8": lambda p: p.parse_path(_bytes_file(b"a: \xff\xfe\n")),
+        "cfg-file-not-utf8": lambda p: p.parse_args(["--cfg", _bytes_file(b"a: \xff\xfe\n")]),
+        "cfg-null-byte": lambda p: p.parse_args(["--cfg=a\x00b"]),
+        "subcommand-section-scalar-config": lambda p: _sub_parser(p).parse_args(["--cfg", '{"a": 3}', "a"]),
+        "subcommand-section-none-object": lambda p: _sub_parser(p).parse_object({"subcommand": "a", "a": None}),
+        "subcommand-section-list-string": lambda p: _sub_parser(p).parse_string("a: [1]"),
+        "broken-default-config-and-required": lambda p: _broken_default_parser(p).parse_args(["--r=1"]),
+        "broken-default-config-missing-required": lambda p: _broken_default_parser(p).parse_args([]),
     }
+
+
+def _bytes_file(data):
+    d = tempfile.mkdtemp(prefix="c03b_")
+    path = os.path.join(d, "f.yaml")
+    with open(path, "wb") as f:
+        f.write(data)
+    return path
+
+
+def _sub_parser(p):
+    from jsonargparse import ActionConfigFile, ArgumentParser
+
+    root = ArgumentParser(exit_on_error=p.exit_on_error, prog="app")
+    root.add_argument("--cfg", action=ActionConfigFile)
+    a = ArgumentParser(exit_on_error=p.exit_on_error)
+    a.add_argument("--x", type=int, default=1)
+    b = ArgumentParser(exit_on_error=p.exit_on_error)
+    b.add_argument("--y", type=int, default=2)
+    sc = root.add_subcommands()
+    sc.add_subcommand("a", a)
+    sc.add_subcommand("b", b)
+    return root
+
+
+def _broken_default_parser(p):
+    from jsonargparse import ArgumentParser
+
+    d = tempfile.mkdtemp(prefix="c03d_")
+    path = os.path.join(d, "defaults.yaml")
+    with open(path, "w") as f:
+        f.write("n: notanint\n")
+    q = ArgumentParser(exit_on_error=p.exit_on_error, prog="app", default_config_files=[path])
+    q.add_argument("--n", type=int, default=0)
+    q.add_argument("--r", type=int, required=True)
+    return q
 
 
 def replay_extra(payload):
@@ -256,7 +302,8 @@ def inject():
 
 # ---- grid: ill-formed values x typed options x channels x exit modes (solver-enumerated) ------
 
-GRID_TYPES = ["int", "list", "dict", "any", "class", "type", "callable", "path", "enum", "optdc", "union", "tuple"]
+GRID_TYPES = ["int", "list", "dict", "any", "class", "type", "callable", "path", "enum", "optdc", "union", "tuple",
+              "float", "dictint", "decimal", "timedelta", "choices", "posint", "listposint", "dcs", "fn", "range", "plaindict"]
 GRID_VALUES = {
     "missing-module": "no.such.module.Thing",
     "missing-attr": "os.no_such_attribute",
@@ -282,8 +329,31 @@ GRID_VALUES = {
     "null-byte": "a\x00b",
     "dotted-empty-segment": "a..b",
     "plus": "+",
+    "huge-int-400": "1" + "0" * 400,
+    "inf": ".inf",
+    "nan": ".nan",
+    "inf-key-map": "{.inf: 1}",
+    "inf-list": "[.inf]",
+    "word": "abc",
+    "huge-days": "9999999999999 days, 0:0:0",
+    "bad-dc-list": "[{k: bad}]",
+    "one": "1",
+    "class_path-unknown-module": '{"class_path": "c.D"}',
+    "list-of-one": "[1, 2]",
+    "spec-base": '{"class_path": "vf.fixtures.Base", "init_args": {"w": 2}}',
 }
-GRID_CHANNELS = ["argv", "argv-space", "config", "object", "env", "sub-argv", "sub-env", "sub-config", "sub-unknown-option"]
+GRID_CHANNELS = ["argv", "argv-space", "config", "object", "env", "sub-argv", "sub-env", "sub-config", "sub-unknown-option",
+                 "argv-after-spec", "config-after-spec", "print-config-skip-default", "parse_string", "object-loaded"]
+_PRIOR_SPEC = '{"class_path": "a.B", "init_args": {"x": 1}}'
+
+
+def _arg_type_fn(v):
+    """A type function that rejects the argparse-documented way."""
+    import argparse
+
+    if str(v) != "ok":
+        raise argparse.ArgumentTypeError(f"not ok: {v!r}")
+    return v
 
 
 def _add_typed_options(p):
@@ -305,6 +375,24 @@ def _add_typed_options(p):
     p.add_argument("--optdc", type=Optional[Req], default=None)
     p.add_argument("--union", type=Union[int, List[Base], None], default=None)
     p.add_argument("--tuple", type=Tuple[int, Base], default=None)
+    import datetime
+    import decimal
+
+    from jsonargparse.typing import PositiveInt
+
+    from ..fixtures import Inner
+
+    p.add_argument("--float", type=float, default=0.0)
+    p.add_argument("--dictint", type=Dict[int, int], default={})
+    p.add_argument("--decimal", type=decimal.Decimal, default=None)
+    p.add_argument("--timedelta", type=datetime.timedelta, default=None)
+    p.add_argument("--choices", nargs="+", choices=["a", "b"], default=["a"])
+    p.add_argument("--posint", type=PositiveInt, default=1)
+    p.add_argument("--listposint", type=List[PositiveInt], default=[])
+    p.add_argument("--dcs", type=List[Inner], default=[])
+    p.add_argument("--fn", type=_arg_type_fn, default=None)
+    p.add_argument("--range", type=range, default=None)
+    p.add_argument("--plaindict", type=dict, default=None)
 
 
 def _grid_parser(exit_on_error, with_subcommands=False):
@@ -352,25 +440,49 @@ def _grid_once(tname, vname, channel, eoe):
             return p.parse_object({dest: value})
         if channel == "env":
             return p.parse_env({env_name: value})
+        if channel == "argv-after-spec":
+            return p.parse_args([f"{opt}={_PRIOR_SPEC}", f"{opt}={value}"])
+        if channel == "config-after-spec":
+            return p.parse_args(["--cfg", _json.dumps({dest: _json.loads(_PRIOR_SPEC)}), "--cfg", _json.dumps({dest: value})])
+        if channel == "print-config-skip-default":
+            return p.parse_args([f"{opt}={value}", "--print_cfg=skip_default"])
+        if channel == "parse_string":
+            return p.parse_string(dest + ": " + value)
+        if channel == "object-loaded":
+            import yaml
+
+            try:
+                loaded = yaml.safe_load(value)
+            except Exception:
+                loaded = value
+            return p.parse_object({dest: loaded})
         raise RuntimeError(channel)
 
+    if channel == "object-loaded" and vname == "anchor-self":
+        return None  # a cyclic Python object cannot come from a text; not a configuration
     if channel in ("env", "sub-env") and "\x00" in value:
         return None  # not a legal environment value
     kind, detail = _outcome(run, eoe)
+    if channel == "print-config-skip-default" and kind in ("wrong-channel", "wrong-exit") and ("SystemExit(0)" in detail or "status=0" in detail):
+        kind = "print-exit0"  # status 0 is the documented outcome of --print_config
     S.note(kind)
-    if kind not in OK_KINDS:
+    if kind not in OK_KINDS and kind != "print-exit0":
         if kind == "escaped:RecursionError" and vname == "anchor-self" and tname == "any":
             return Fail("leak:escaped:RecursionError", case="self-referential-alias-Any", channel=channel)
         return Fail("leak:" + kind, option=tname, value=vname, channel=channel, exit_on_error=eoe, detail=detail)
     return True
 
 
-def grid(tname):
+QUICK_SKIPPED_CHANNELS = ("argv-space", "sub-env", "sub-config")
+
+
+def grid(tname, full=True):
     _grid_once("int", "empty", "argv", False)
+    channels = GRID_CHANNELS if full else [c for c in GRID_CHANNELS if c not in QUICK_SKIPPED_CHANNELS]
 
     def harness():
         vname = S.pick("value", sorted(GRID_VALUES))
-        channel = S.pick("channel", GRID_CHANNELS)
+        channel = S.pick("channel", channels)
         eoe = S.flag("exit_on_error")
         if S.replaying is not None:
             return _grid_once(tname, vname, channel, eoe)
@@ -378,6 +490,86 @@ def grid(tname):
 
         with NoTracing():
             return _grid_once(tname, vname, channel, eoe)
+
+    return harness
+
+
+# ---- names: malformed option names / config keys x typed options x value forms (solver-enumerated) ------
+
+NAME_BASES = ["int", "list", "dict", "any", "class", "optdc", "union", "tuple", "callable", "cfg", "nosuch", ""]
+NAME_SUFFIXES = ["", "+", ".", "..", ".x", ".x.y", ".x+", "+.x", ".+", ".init_args", ".init_args.", ".init_args.nope", ".init_args.p", ".class_path", ".class_path.x",
+                 ".dict_kwargs.z", ".help", ".0", ".k", ".k.j", ".__class__", "="]
+NAME_PREFIXES = ["--", "-", "--.", "---", "--no_"]
+NAME_VALUES = {"none": None, "int": "1", "map": '{"k": 1}', "null": "null", "empty": "", "class": "vf.fixtures.Base", "list": "[1]"}
+NAME_CHANNELS = ["argv-eq", "argv-space", "sub-argv", "config-key", "object-key", "sub-config-key", "env-cfg-key"]
+
+
+def _names_once(base, suffix, prefix, vname, channel, eoe):
+    import json as _json
+
+    value = NAME_VALUES[vname]
+    bname = "class" if base == "class" else base
+    key = ("class_" if base == "class" else base) + suffix
+    opt = prefix + bname + suffix
+
+    def run():
+        p = _grid_parser(eoe, with_subcommands=channel.startswith("sub-"))
+        if channel == "argv-eq":
+            return p.parse_args([opt if value is None else f"{opt}={value}"])
+        if channel == "argv-space":
+            return p.parse_args([opt] if value is None else [opt, value])
+        if channel == "sub-argv":
+            return p.parse_args(["run", opt if value is None else f"{opt}={value}"])
+        try:
+            loaded = None if value is None else _json.loads(value)
+        except ValueError:
+            loaded = value
+        if channel == "config-key":
+            return p.parse_args(["--cfg", _json.dumps({key: loaded})])
+        if channel == "object-key":
+            return p.parse_object({key: loaded})
+        if channel == "sub-config-key":
+            return p.parse_args(["--cfg", _json.dumps({"run": {key: loaded}})])
+        if channel == "env-cfg-key":
+            return p.parse_env({"APP_CFG": _json.dumps({key: loaded})})
+        raise RuntimeError(channel)
+
+    if channel.endswith("-key") and prefix != "--":
+        return None  # prefixes are an argv notion
+    kind, detail = _outcome(run, eoe)
+    if kind in ("wrong-channel", "wrong-exit") and ("SystemExit(0)" in detail or "status=0" in detail) and channel in ("argv-eq", "argv-space", "sub-argv"):
+        # status 0 is the documented outcome of a help request: argparse resolves an unambiguous abbreviation ('--class.' -> '--class.help')
+        gp = _grid_parser(eoe, with_subcommands=channel.startswith("sub-"))
+        if channel == "sub-argv":
+            gp = gp._subcommands_action._name_parser_map["run"]
+        cands = [a for o, a in gp._option_string_actions.items() if o.startswith(opt)]
+        if cands and all("Help" in type(a).__name__ or "PrintConfig" in type(a).__name__ for a in cands):
+            S.note("help-exit0")
+            return True
+    S.note(kind)
+    if kind not in OK_KINDS:
+        return Fail("leak:" + kind, name=opt if channel.startswith(("argv", "sub-argv")) else key, value=vname, channel=channel, exit_on_error=eoe, detail=detail)
+    return True
+
+
+def names(base, full=False):
+    _names_once("int", "", "--", "int", "argv-eq", False)
+    prefixes = NAME_PREFIXES if full else NAME_PREFIXES[:3:2]
+    values = sorted(NAME_VALUES) if full else ["empty", "int", "map", "none"]
+    channels = NAME_CHANNELS if full else [c for c in NAME_CHANNELS if c not in ("argv-space", "sub-config-key")]
+
+    def harness():
+        suffix = S.pick("suffix", NAME_SUFFIXES)
+        prefix = S.pick("prefix", prefixes)
+        vname = S.pick("value", values)
+        channel = S.pick("channel", channels)
+        eoe = S.flag("exit_on_error")
+        if S.replaying is not None:
+            return _names_once(base, suffix, prefix, vname, channel, eoe)
+        from crosshair.tracers import NoTracing
+
+        with NoTracing():
+            return _names_once(base, suffix, prefix, vname, channel, eoe)
 
     return harness
 
@@ -395,7 +587,8 @@ def main(rep, tier):
         "solver-generated members and non-members against the real constructor (sampling, not proof)",
         "ints with more than 4300 digits (ValueError from int()) lie outside the length bound; one such input is in the fixed battery",
         "fault injection replaces yaml.load only for texts carrying a marker; a fault kind is reported only through its witness input on the unmodified loader",
-        "argv grammars (malformed option names, prefixes) are not symbolic: the fixed battery holds the cases named in the property text",
+        "argv grammars are not symbolic strings: option names / config keys are solver-chosen members of a finite grammar (12 bases x 22 suffixes x 5 prefixes "
+        "x 7 value forms x 7 channels x 2 exit modes), run concretely; the fixed battery holds the cases named in the property text",
         "json, jsonnet, toml, omegaconf parser modes are outside",
     ]
     art = ya.capture()
@@ -498,9 +691,9 @@ def main(rep, tier):
         else:
             rep.nontrivial += 1
     # grid of ill-formed values
-    gres = run_jobs([dict(module="c03", func="grid", kwargs=dict(tname=t), timeout=600) for t in GRID_TYPES])
+    gres = run_jobs([dict(module="c03", func="grid", kwargs=dict(tname=t, full=(tier == "thorough")), timeout=600) for t in GRID_TYPES])
     gfails = absorb(rep, gres, require_tags=("ArgumentError", "exit2", "namespace"))
-    rep.bounds["grid"] = dict(options=GRID_TYPES, values=sorted(GRID_VALUES), channels=GRID_CHANNELS)
+    rep.bounds["grid"] = dict(options=GRID_TYPES, values=sorted(GRID_VALUES), channels=GRID_CHANNELS, quick_skips_channels=QUICK_SKIPPED_CHANNELS)
     for cls, samples in gfails.items():
         seen = set()
         for smp in samples:
@@ -519,6 +712,28 @@ def main(rep, tier):
                 rep.known_finding(known, f"{i.get('option', smp['kwargs']['tname'])} {i.get('value', i.get('case'))} via {i.get('channel')}")
             else:
                 rep.violation(f"{cls}: option {i.get('option')} given {i.get('value')!r} through {i.get('channel')}: {r.get('detail')}", dict(module="ch", func="replay_path", payload=payload, cls=cls))
+    # grid of malformed option names / config keys
+    nres = run_jobs([dict(module="c03", func="names", kwargs=dict(base=b, full=(tier == "thorough")), timeout=900) for b in NAME_BASES])
+    nfails = absorb(rep, nres, require_tags=("ArgumentError", "exit2", "namespace"))
+    rep.bounds["names"] = dict(bases=NAME_BASES, suffixes=NAME_SUFFIXES, prefixes=NAME_PREFIXES, values=sorted(NAME_VALUES), channels=NAME_CHANNELS)
+    for cls, samples in nfails.items():
+        seen = set()
+        for smp in samples:
+            i = smp["info"]
+            key = (i.get("name"), i.get("channel").split("-")[0])
+            if key in seen:
+                continue
+            seen.add(key)
+            payload = dict(module="c03", func="names", kwargs=smp["kwargs"], ordered=smp["values"].get("__order__", []))
+            r = run_native("ch", "replay_path", payload)
+            if not r.get("reproduced"):
+                rep.inconc(f"names counterexample {cls} {i} did not reproduce natively: {r}")
+                continue
+            known = rep.match_finding(cls, dict(case=i.get("name", ""), option=i.get("name", ""), value=i.get("value", ""), detail=r.get("detail", "")))
+            if known:
+                rep.known_finding(known, f"name {i.get('name')!r} via {i.get('channel')}")
+            else:
+                rep.violation(f"{cls}: option name / key {i.get('name')!r} ({i.get('value')}) through {i.get('channel')}: {r.get('detail')}", dict(module="ch", func="replay_path", payload=payload, cls=cls))
     # fault injection
     results = run_jobs([dict(module="c03", func="inject", kwargs={}, timeout=600)])
     fails = absorb(rep, results, require_tags=("ArgumentError", "exit2"))
